@@ -147,8 +147,8 @@ MPure == { PG(k, 0, 0) : k \in {"H", "X", "Y", "S", "CX"} } \cup { PG("Rz", 1, 0
          \cup { PKB("Ket", <<0>>), PKB("Ket", <<1>>), PKB("Bra", <<0>>), PKB("Bra", <<1>>) }
 MMixed == { MG("Measure", 1, d, o, <<>>, <<>>) : d \in 0..1, o \in 0..1 } \cup { MG("Measure", 2, 1, 0, <<>>, <<>>) }
           \cup { MG("Encode", 1, d, o, <<>>, <<>>) : d \in 0..1, o \in 0..1 }
-          \cup { MG("Discard", 0, 0, 0, t, <<>>) : t \in { <<"q">>, <<"b">>, <<"q", "b">> } }
-          \cup { MG("MixedState", 0, 0, 0, t, <<>>) : t \in { <<"q">>, <<"b">> } }
+          \cup { MG("Discard", 0, 0, 0, t, <<>>) : t \in { <<"q">>, <<"b">>, <<"q", "b">>, <<"q", "q">>, <<"b", "q">> } }
+          \cup { MG("MixedState", 0, 0, 0, t, <<>>) : t \in { <<"q">>, <<"b">>, <<"q", "q">> } }
           \cup { PKB("Bits", <<0>>), PKB("Bits", <<1>>), PKB("Bits", <<1, 0>>) }
           \cup { MG("NOT", 0, 0, 0, <<>>, <<>>), MG("Copy", 0, 0, 0, <<>>, <<>>), MG("Match", 0, 0, 0, <<>>, <<>>) }
           \cup { MG("MSwap", 0, 0, 0, <<a>>, <<b>>) : a \in {"q", "b"}, b \in {"q", "b"} }
